@@ -351,6 +351,7 @@ def main():
     else:
         S.model_check(rep, MODELS[a.tier])
     hangs = []
+    confirmed = set()
     for name, text in sorted(seeds_.items()):
         toks_list, edges, texts = explore(
             mods, rep, name, text, max(CAP[a.tier], DEEP.get(name, 0)), hangs)
@@ -402,7 +403,12 @@ def main():
                 sig = (f'{kind}:' + '>'.join(min(rots))) if kind == 'cycle' \
                     else f'{kind}:{muts}'
                 looped, nw = (None, None)
-                if (a.tier == 'thorough' or a.replay) and not rep.is_known(sig):
+                if (a.tier == 'thorough' or a.replay) and \
+                        not rep.is_known(sig) and sig not in confirmed \
+                        and len(confirmed) < 6:
+                    # (one end-to-end confirmation per kind of cycle: a
+                    # no-op of one mutator shows on thousands of inputs)
+                    confirmed.add(sig)
                     looped, nw = confirm_cycle([toks_list[u] for u in cyc],
                                                texts[cyc[0]])
                 rep.violation(
